@@ -7,7 +7,7 @@ import shutil
 import vlib
 from vlib import ToolError
 
-ACTIONS = ["DoUpdate", "Deregister", "Disconnect", "TimeCheck", "ClearEmpty", "Tick"]
+ACTIONS = ["DoUpdate", "Deregister", "Disconnect", "TimeCheck", "ClearEmpty", "Tick", "RefreshRange"]
 
 
 def mc_legs(c, quick):
@@ -17,6 +17,15 @@ def mc_legs(c, quick):
     c.add_mc(mc)
     neg = vlib.tlc_mc("Registry.tla", "MC_Registry_defect.cfg", expect_violation="ClientSetSound", name=c.pid + "_neg")
     c.add_negative_control("Registry with Defect_ClientSetBeforeOwner (pre-fix bookkeeping order) violates ClientSetSound", neg["violated"])
+    if c.pid == "C11":
+        # the over-approximated environment (HTTP instances synced WITH a client id, which no real sender produces), without range changes
+        mc2 = vlib.tlc_mc("Registry.tla", "MC_Registry_httpcl.cfg", name=c.pid + "_mc2", timeout=1200)
+        c.add_mc(mc2)
+    if c.pid == "C13":
+        for cfg, what in (("MC_Registry_defect_noarm.cfg", "Defect_NoArmOnSync (an own instance that comes back by cluster sync is not armed; code before fix 4a2756a)"),
+                          ("MC_Registry_defect_takeover.cfg", "Defect_TakeoverKeepsOrigin (a taken-over instance keeps its from-cluster mark; code before the take-over fix)")):
+            neg = vlib.tlc_mc("Registry.tla", cfg, expect_violation="OwnedExpiredAfterSweep", name=c.pid + "_neg2")
+            c.add_negative_control("Registry with %s violates OwnedExpiredAfterSweep" % what, neg["violated"])
 
 
 def gen(c, cfg, num, seed, name, cap):
